@@ -93,6 +93,21 @@ func (d *StreamingBlockDecoder) DecodeWithOffsets() (*BlockTransactionOffsets, e
 	}
 	_ = blockLen // Used for validation if needed
 
+	// Detect Dijkstra blocks. These are a 2-element array [header, block_body]
+	// with the transactions inline inside block_body, so they must be
+	// recognized before the generic short-block early return.
+	if isDijkstraBlock(blockArray) {
+		offsets, err := extractDijkstraTransactionOffsets(d.data, blockArray)
+		if err != nil {
+			return nil, fmt.Errorf(
+				"extract Dijkstra transaction offsets: %w",
+				err,
+			)
+		}
+		d.offsets = offsets
+		return d.offsets, nil
+	}
+
 	if len(blockArray) < 3 || isByronEpochBoundaryBlock(blockArray) {
 		// Byron EBB or other minimal block format
 		// Return empty slice instead of nil to prevent nil pointer dereference
